@@ -766,7 +766,7 @@ enum ChildResult {
 
 fn run_child(bin: &std::path::Path, file: &std::path::Path, timeout_s: u64) -> ChildResult {
     use std::process::{Command, Stdio};
-    let mut child = match Command::new(bin)
+    let mut child = match crate::engine::unlimited(&mut Command::new(bin))
         .arg("--worker")
         .arg("C10")
         .arg(file)
@@ -1124,7 +1124,7 @@ fn probe_stage(res: &mut ExtraResult) {
     }
     let mut info = vec![];
     for (label, bin) in bins {
-        let out = Command::new(&bin)
+        let out = crate::engine::unlimited(&mut Command::new(&bin))
             .arg("--worker")
             .arg("C10")
             .arg("probe-unissued-index")
